@@ -474,8 +474,18 @@ impl EvalResult {
         if let Some(val) = other {
             let class = self.order_by_class();
             class.cmp(&val.order_by_class()).then_with(|| {
-                let by_value = if (2..=7).contains(&class) {
+                let by_value = if (2..=5).contains(&class) {
                     self.sparql_cmp(val)
+                } else if class == 6 {
+                    // dateTimes are only partially ordered (with vs. without timezone):
+                    // compare them with a total preorder that extends that partial order
+                    match (self.as_value(), val.as_value()) {
+                        (
+                            Some(SparqlValue::DateTime(Some(d1))),
+                            Some(SparqlValue::DateTime(Some(d2))),
+                        ) => Some(d1.total_order_key().cmp(&d2.total_order_key())),
+                        _ => None,
+                    }
                 } else {
                     None
                 };
@@ -488,16 +498,14 @@ impl EvalResult {
 
     /// The class used by [`sparql_order_by`](Self::sparql_order_by):
     /// blank nodes < IRIs < literals (numbers < simple strings < language strings < booleans
-    /// < timezoned dateTimes < naive dateTimes < all other literals) < quoted triples < variables.
+    /// < dateTimes < all other literals) < quoted triples < variables.
     fn order_by_class(&self) -> u8 {
-        use crate::value::XsdDateTime;
         match self.as_value() {
             Some(SparqlValue::Number(n)) if !n.coerce_to_double().is_nan() => 2,
             Some(SparqlValue::String(_, None)) => 3,
             Some(SparqlValue::String(_, Some(_))) => 4,
             Some(SparqlValue::Boolean(Some(_))) => 5,
-            Some(SparqlValue::DateTime(Some(XsdDateTime::Timezoned(_)))) => 6,
-            Some(SparqlValue::DateTime(Some(XsdDateTime::Naive(_)))) => 7,
+            Some(SparqlValue::DateTime(Some(_))) => 6,
             Some(_) => 8,
             None => match self.as_term().kind() {
                 sophia_api::term::TermKind::BlankNode => 0,
